@@ -22,6 +22,7 @@ SERVICE_TABLES = {
     "S_none": [],
     "S_unk": [{"name": "a1.svc", "type": "login"}, {"name": "m5.svc", "type": "gopher"}, {"name": "z9.svc", "type": "dronecheck"}],
     "S_drone": [{"name": "b2.svc", "type": "dronecheck"}],
+    "S_ipr2": [{"name": "a1.svc", "type": "login-ipr"}, {"name": "b2.svc", "type": "login"}],
     "S_pref": [{"name": "a1.svc", "type": "dronecheck"}, {"name": "a1.svc2", "type": "login"}],
     # iauth_xquery not loaded at all (core alone / core + iauth_class): marker entry understood by IAuth.tla (XQ) and the driver
     "S_noxq": [{"name": "", "type": "@noxquery"}],
